@@ -83,14 +83,15 @@ theorem exit_is_physical (p : PSt) (hI : PInv p) (hf : (step p).fault = none)
     fault, the physical registers, data memory system (with data-cache state and counters), output,
     exit code, retired-instruction, branch and procedure counts and pc are those of the sequential
     machine after `k ≤ n` steps, where `k` is the first step at which the sequential machine is done
-    (the point where the single-cycle loop stops), and the sequence of retired instruction addresses
-    is the sequence of addresses executed by these `k` sequential steps. -/
+    (the point where the single-cycle loop stops), the sequence of retired instruction addresses is
+    the sequence of addresses executed by these `k` sequential steps, and none of them faults. -/
 theorem final_state (st : St) (hp : ProgOK st.imem) (hc : ICoh st.imem) (hx : st.exitCode = none)
     (n : Nat) (hr : runOK n (PSt.init st true)) (hd : isDone (pipeRun n (PSt.init st true)) = true)
     (hprev : ∀ m, m < n → isDone (pipeRun m (PSt.init st true)) = false) :
     ∃ k, k ≤ n ∧ SimP (pipeRun n (PSt.init st true)).st (seqRun k st) ∧ singleDone (seqRun k st) = true ∧
       (∀ j, j < k → singleDone (seqRun j st) = false) ∧
-      retireLog n (PSt.init st true) = seqTrace k st :=
+      retireLog n (PSt.init st true) = seqTrace k st ∧
+      (∀ j, j < k → seqFault (seqRun j st) = none) :=
   final_state_init st hp hc hx n hr hd hprev
 
 /-- (b4) A fault reported by a cycle is predicted by the abstraction: the abstraction is stuck in
